@@ -48,6 +48,7 @@ import (
 	"net/http"
 	"net/http/httptest"
 	"net/textproto"
+	"os"
 	"sort"
 	"strconv"
 	"strings"
@@ -418,8 +419,14 @@ func (l *connectListener) handshake(c net.Conn) {
 	}
 	req, err := http.ReadRequest(br)
 	if err != nil || req.Method != "CONNECT" || br.Buffered() != 0 {
+		why := "!not-a-connect"
+		if err != nil {
+			why = "!read-error " + err.Error()
+		} else if req.Method != "CONNECT" {
+			why = "!method " + req.Method
+		}
 		l.t.mu.Lock()
-		l.t.tunnels = append(l.t.tunnels, "!not-a-connect")
+		l.t.tunnels = append(l.t.tunnels, why)
 		l.t.mu.Unlock()
 		_ = c.Close()
 		return
@@ -520,6 +527,9 @@ func (t *target) Close() {
 type errAggregator struct {
 	mu  sync.Mutex
 	env string
+	// net: a shot failed below HTTP (dial, reset, EOF, TLS) — expected when the scheme does not fit the target, otherwise
+	// the case is run again: a transient trouble of the machine disappears, a defect of the code does not
+	net string
 }
 
 var envErrors = []string{"cannot assign requested address", "too many open files", "i/o timeout", "handshake timeout",
@@ -532,6 +542,14 @@ func (a *errAggregator) Report(s core.Sample) {
 		return
 	}
 	msg := ns.Err().Error()
+	if os.Getenv("C09_DEBUG_ERRS") != "" {
+		fmt.Fprintln(os.Stderr, "shot error:", msg)
+	}
+	if !strings.HasPrefix(msg, "net/http: invalid header field") {
+		a.mu.Lock()
+		a.net = msg
+		a.mu.Unlock()
+	}
 	for _, e := range envErrors {
 		if strings.Contains(msg, e) {
 			a.mu.Lock()
@@ -546,31 +564,31 @@ func (a *errAggregator) Report(s core.Sample) {
 var dropAlways = map[string]bool{"Content-Length": true, "Transfer-Encoding": true, "Connection": true}
 
 func runCase(input string) string {
-	obs, env := "", ""
+	setup()
+	c, perr := parseCase(input)
+	expectNetErrors := perr == nil && (c.srv == "tls") != c.ssl
+	obs := ""
 	for attempt := 0; attempt < 3; attempt++ {
-		if obs, env = runOnce(input); env == "" {
+		agg := &errAggregator{}
+		obs = runWith(input, agg)
+		agg.mu.Lock()
+		env, neterr := agg.env, agg.net
+		agg.mu.Unlock()
+		if os.Getenv("C09_DEBUG_ERRS") != "" && (env != "" || (neterr != "" && !expectNetErrors)) {
+			fmt.Fprintf(os.Stderr, "retry %d: env=%q net=%q obs=%s\n", attempt, env, neterr, drv.Trunc(obs, 80))
+		}
+		if env == "" && (neterr == "" || expectNetErrors) && !strings.Contains(obs, "tun=bad:21") {
 			return obs
+		}
+		if attempt == 2 {
+			if env != "" {
+				return "ENV " + env
+			}
+			return obs // it persists: not the machine
 		}
 		time.Sleep(time.Duration(200*(attempt+1)) * time.Millisecond)
 	}
-	return "ENV " + env
-}
-
-func runOnce(input string) (string, string) {
-	o, env := runOnce1(input)
-	return o, env
-}
-
-func runOnce1(input string) (obsOut string, envOut string) {
-	setup()
-	agg := &errAggregator{}
-	defer func() {
-		agg.mu.Lock()
-		envOut = agg.env
-		agg.mu.Unlock()
-	}()
-	obsOut = runWith(input, agg)
-	return
+	return obs
 }
 
 func runWith(input string, agg *errAggregator) string {
